@@ -250,6 +250,16 @@ def engine_jobs(tier):
             if i % 4 == 0:
                 job["opts"] = {"storage": True}     # also check the state rebuilt from storage after every transition
             out.append(job)
+    # id take-over histories (one side removes/moves b away and renames a onto it, the other side edits a or b) on
+    # flavours with path ids on either side: entries are ousted from their id while keeping their path
+    repl = [[["delete", "b"], ["rename", "a", "b"]], [["rename", "b", "c"], ["rename", "a", "b"]]]
+    others = [[["write", "b"]], [["write", "a"]], [["delete", "b"]]]
+    for cfg in (["po", "op", "pp"] if tier == "quick" else ["po", "op", "pp", "pci", "oo"]):
+        for r in repl:
+            for o in others:
+                for sc in ([r, o], [o, r]):
+                    out.append({"prop": PROP, "cfg": cfg, "order": "asc", "base": "B3", "scripts": A.stamp(sc),
+                                "mode": {"k": None, "cap": 1500 if tier == "quick" else 6000, "depth": 60, "audit": 0}})
     return out
 
 
